@@ -1074,8 +1074,11 @@ class C13(Prop):
 
     def run_specs(self, ctx, specs, res, coq=True):
         import multiprocessing as mp
+        import time
+        t0 = time.time()
         with mp.get_context("fork").Pool(min(16, os.cpu_count() or 4)) as pool:
             outs = pool.map(_worker, [(k, s) for k, s in enumerate(specs)], chunksize=2)
+        ctx.log("S3: %d cases run on the implementation in %.1fs" % (len(specs), time.time() - t0))
         shards = []
         texts = []
         for (k, out) in outs:
@@ -1127,7 +1130,10 @@ class C13(Prop):
             body.append("Eval vm_compute in (map fst (filter (fun c => negb (snd c)) [%s]))." % "; ".join(
                 "(%d%%nat, case_%d)" % (k, k) for (k, _t) in chunk))
             shards.append(("cases_%d" % (s // per), "\n".join(body) + "\n"))
-        for (name, rc, so, se) in core.run_cases_parallel(ctx, shards):
+        t0 = time.time()
+        results = core.run_cases_parallel(ctx, shards)
+        ctx.log("S3: %d case files evaluated by Coq in %.1fs" % (len(shards), time.time() - t0))
+        for (name, rc, so, se) in results:
             if rc != 0:
                 res.error = "case file %s failed to compile: %s" % (name, se[-800:])
                 return res
